@@ -370,14 +370,16 @@ def run_native_unit(uname, ucfg, tier, scratch):
             out["reason"] = "native enumeration aborted: " + why
         out["wall_s"] = time.time() - t0
         return out
-    found = [l for l in text.splitlines() if l.startswith("FOUND ")]
-    searched = [l for l in text.splitlines() if l.startswith("searched ")]
+    # (libtest prints `test <name> ... ` in front of the first output line when it runs tests on one
+    # thread, as under Miri: look for the markers anywhere in a line)
+    found = [l[l.index("FOUND kind="):] for l in text.splitlines() if "FOUND kind=" in l]
+    searched = [l[l.index("searched "):] for l in text.splitlines() if re.search(r"(^|\.\.\. )searched \d", l)]
     ran = re.search(r"test result: (ok|FAILED)\. (\d+) passed; (\d+) failed", text)
     n_cases = sum(int(x) for l in searched for x in re.findall(r"\b(\d+)\b", l)[:1])
     if (not ran or not searched or n_cases == 0) and not found:
         # compile error (API changed) or the enumeration did not report its size: vacuity guard
         out["status"] = "undecided"
-        out["reason"] = "native enumeration did not run to completion: " + text[-600:]
+        out["reason"] = f"native enumeration did not run to completion (exit status {pr.returncode}): " + text[-600:]
         out["wall_s"] = time.time() - t0
         return out
     for kind, oname in ucfg["obligations"].items():
